@@ -400,10 +400,13 @@ func (x *Extractor) walkAtBody(fn *ssa.Function, e *env, mf *MethodFacts, via []
 				}
 				// a store into the only field of a wrapper struct reached through such a pointer
 				if fa2, ok := ins.Addr.(*ssa.FieldAddr); ok && !x.isConvPtr(fa2.X.Type()) {
-					if wst, ok := fa2.X.Type().Underlying().(*types.Pointer).Elem().Underlying().(*types.Struct); ok && wst.NumFields() == 1 {
+					if wst, ok := fa2.X.Type().Underlying().(*types.Pointer).Elem().Underlying().(*types.Struct); ok {
 						if _, isLocal := fa2.X.(*ssa.Alloc); !isLocal {
 							if pv, ok := x.eval(fa2.X, e).(PtrV); ok && pv.FA != nil && x.isConvPtr(pv.FA.X.Type()) {
 								name := structFieldName(pv.FA.X.Type(), pv.FA.Field)
+								if wst.NumFields() != 1 {
+									name = nestedFieldName(pv.FA, fa2)
+								}
 								mf.FieldsSet[name] = append(mf.FieldsSet[name], describeVal(x.eval(ins.Val, e)))
 								mf.SetOrder = append(mf.SetOrder, name)
 							}
@@ -572,10 +575,13 @@ func (x *Extractor) walkEffects(fn *ssa.Function, e *env, mf *MethodFacts, seen 
 				}
 				// a store into the only field of a wrapper struct reached through such a pointer
 				if fa2, ok := ins.Addr.(*ssa.FieldAddr); ok && !x.isConvPtr(fa2.X.Type()) {
-					if wst, ok := fa2.X.Type().Underlying().(*types.Pointer).Elem().Underlying().(*types.Struct); ok && wst.NumFields() == 1 {
+					if wst, ok := fa2.X.Type().Underlying().(*types.Pointer).Elem().Underlying().(*types.Struct); ok {
 						if _, isLocal := fa2.X.(*ssa.Alloc); !isLocal {
 							if pv, ok := x.eval(fa2.X, e).(PtrV); ok && pv.FA != nil && x.isConvPtr(pv.FA.X.Type()) {
 								name := structFieldName(pv.FA.X.Type(), pv.FA.Field)
+								if wst.NumFields() != 1 {
+									name = nestedFieldName(pv.FA, fa2)
+								}
 								mf.FieldsSet[name] = append(mf.FieldsSet[name], describeVal(x.eval(ins.Val, e)))
 								mf.SetOrder = append(mf.SetOrder, name)
 							}
